@@ -1,8 +1,17 @@
 import ObiVerif.Model.Writer
+import ObiVerif.Model.WriterFmt
+import ObiVerif.Model.CsvRead
 import ObiVerif.Driver.Util
-/-! line protocol for C04: `<writer> w=<workers> <order>:<nseq>:<hex text> …` (arrival order) -/
+/-! line protocol for C04 (see `harness/c04.go`):
+
+`<writer> <generator tokens…> | sh=<shift> se=<0|1> csv=<6 bits id,count,taxon,def,seq,qual> na=<hex> keys=<hex>/<hex>…|~ C <chunk>…`
+with `<chunk> = <order>:<rec>;<rec>…` (arrival order), `<rec> = <id>,<seq>,<qual|~>,<info>,<ann>` (hex fields)
+and `<ann>` the prefix encoding of the annotation map: `s<hex>.` string, `i[n]<digits>.` int, `t`/`f` bool,
+`l<n>.` + n values, `m<n>.` + n × (`<hex key>.` value).
+
+Old form (still accepted): `<writer> w=<workers> <order>:<nseq>:<hex text> …` — chunk texts as data. -/
 namespace ObiVerif.Driver.C04
-open ObiVerif.Writer ObiVerif.Driver
+open ObiVerif.Writer ObiVerif.Driver ObiVerif.WriterFmt
 
 def parseChunk (s : String) : Option (Nat × Bytes) :=
   match s.splitOn ":" with
@@ -12,17 +21,138 @@ def parseChunk (s : String) : Option (Nat × Bytes) :=
     pure (k, b)
   | _ => none
 
+def runOld (w : String) (rest : List String) : String :=
+  match rest.mapM parseChunk with
+  | none => "bad-op"
+  | some arr =>
+    if w = "fasta" || w = "fastq" || w = "csv" then s!"closes=1 out={hex (writeRaw arr)}"
+    else if w = "json" then s!"closes=1 out={hex (writeJson arr)}"
+    else "bad-op"
+
+/-- split at the first `.` -/
+def upToDot (cs : List Char) : Option (List Char × List Char) :=
+  let a := cs.takeWhile (· ≠ '.')
+  match cs.dropWhile (· ≠ '.') with
+  | _ :: t => some (a, t)
+  | [] => none
+
+def hexOf (cs : List Char) : Option B := if cs.isEmpty then some [] else unhexAux cs []
+
+mutual
+def parseVal : Nat → List Char → Option (Val × List Char)
+  | 0, _ => none
+  | fuel + 1, c :: cs =>
+    if c = 's' then do
+      let (a, t) ← upToDot cs
+      let b ← hexOf a
+      pure (.str b, t)
+    else if c = 'i' then do
+      let (a, t) ← upToDot cs
+      match a with
+      | 'n' :: ds => do let n ← (String.ofList ds).toNat?; pure (.int (-(n : Int)), t)
+      | ds => do let n ← (String.ofList ds).toNat?; pure (.int n, t)
+    else if c = 't' then some (.bool true, cs)
+    else if c = 'f' then some (.bool false, cs)
+    else if c = 'l' then do
+      let (a, t) ← upToDot cs
+      let n ← (String.ofList a).toNat?
+      let (vs, t) ← parseVals fuel n t
+      pure (.list vs, t)
+    else if c = 'm' then do
+      let (a, t) ← upToDot cs
+      let n ← (String.ofList a).toNat?
+      let (es, t) ← parseEntries fuel n t
+      pure (.map es, t)
+    else none
+  | _ + 1, [] => none
+def parseVals : Nat → Nat → List Char → Option (List Val × List Char)
+  | 0, _, _ => none
+  | _ + 1, 0, cs => some ([], cs)
+  | fuel + 1, n + 1, cs => do
+    let (v, t) ← parseVal fuel cs
+    let (vs, t) ← parseVals fuel n t
+    pure (v :: vs, t)
+def parseEntries : Nat → Nat → List Char → Option (List (B × Val) × List Char)
+  | 0, _, _ => none
+  | _ + 1, 0, cs => some ([], cs)
+  | fuel + 1, n + 1, cs => do
+    let (a, t) ← upToDot cs
+    let k ← hexOf a
+    let (v, t) ← parseVal fuel t
+    let (es, t) ← parseEntries fuel n t
+    pure ((k, v) :: es, t)
+end
+
+def parseAnn (s : String) : Option (List (B × Val)) :=
+  let cs := s.toList
+  match parseVal (cs.length + 2) cs with
+  | some (.map es, []) => some es
+  | _ => none
+
+def parseRec (s : String) : Option Rec :=
+  match s.splitOn "," with
+  | [i, sq, q, inf, a] => do
+    let id ← unhex i
+    let seq ← unhex sq
+    let qual ← if q = "~" then some none else (unhex q).map some
+    let info ← unhex inf
+    let ann ← parseAnn a
+    pure ⟨id, seq, qual, info, ann⟩
+  | _ => none
+
+def parseBatch (s : String) : Option (Nat × List Rec) :=
+  match s.splitOn ":" with
+  | [o, r] => do
+    let k ← o.toNat?
+    let rs ← if r = "" then some [] else (r.splitOn ";").mapM parseRec
+    pure (k, rs)
+  | _ => none
+
+def kv (ws : List String) (k : String) : Option String :=
+  (ws.find? (·.startsWith (k ++ "="))).map (fun s => (s.drop (k.length + 1)).toString)
+
+def bit (s : String) (i : Nat) : Bool := (s.toList.getD i '0') = '1'
+
+def parseCfg (w : String) (opts : List String) : Option Cfg := do
+  let kind ← if w = "fasta" then some Kind.fasta else if w = "fastq" then some Kind.fastq
+    else if w = "json" then some Kind.json else if w = "csv" then some Kind.csv else none
+  let sh ← (← kv opts "sh").toNat?
+  let se ← kv opts "se"
+  let cb ← kv opts "csv"
+  let na ← unhex (← kv opts "na")
+  let ks ← kv opts "keys"
+  let keys ← if ks = "~" then some [] else (ks.splitOn "/").mapM unhex
+  pure { kind := kind, shift := UInt8.ofNat sh, skipEmpty := se = "1",
+         csv := { id := bit cb 0, count := bit cb 1, taxon := bit cb 2, defn := bit cb 3, seq := bit cb 4,
+                  qual := bit cb 5, na := na, keys := keys } }
+
+def showRows (rows : List (List B)) : String :=
+  if rows.isEmpty then "~" else "/".intercalate (rows.map fun r => ",".intercalate (r.map hex))
+
+def runNew (w : String) (model : List String) : String :=
+  let opts := model.takeWhile (· ≠ "C")
+  let chunks := (model.dropWhile (· ≠ "C")).drop 1
+  match parseCfg w opts, chunks.mapM parseBatch with
+  | some cfg, some arr =>
+    match writeFile cfg arr with
+    | none => "fatal"
+    | some out =>
+      if cfg.kind = Kind.csv then
+        -- the reader model on the writer's output (compared with encoding/csv's Reader by the harness)
+        let rd := match CsvRead.parse out with
+          | some rows => showRows rows
+          | none => "error"
+        s!"closes=1 out={hex out} rows={rd}"
+      else s!"closes=1 out={hex out}"
+  | _, _ => "bad-op"
+
 def run (line : String) : String :=
   match words line with
-  | w :: _ :: rest =>
-    match rest.mapM parseChunk with
-    | none => "bad-op"
-    | some arr =>
-      -- with several formatting workers the arrival order is not controlled by the harness: the
-      -- theorems say the output does not depend on it, so the model answers for the listed order
-      if w = "fasta" || w = "fastq" || w = "csv" then s!"closes=1 out={hex (writeRaw arr)}"
-      else if w = "json" then s!"closes=1 out={hex (writeJson arr)}"
-      else "bad-op"
+  | w :: rest =>
+    if rest.contains "|" then runNew w ((rest.dropWhile (· ≠ "|")).drop 1)
+    else match rest with
+      | _ :: chunks => runOld w chunks
+      | [] => "bad-op"
   | _ => "bad-op"
 
 end ObiVerif.Driver.C04
